@@ -151,6 +151,19 @@ func VerifC08_R_mirror() {
 	}
 	_, merr := b.Get(ctxB, "cas", "missing")
 	sym.Assert(merr != nil, "C08.R2.missing-object-is-a-miss")
+	// asking again (a retry, or a second file with the same digest) is answered again - a failed or
+	// missing download leaves nothing behind that a later request would wait for - and once the
+	// remote is back the object is served
+	_, merr2 := b.Get(ctxB, "cas", "missing")
+	sym.Assert(merr2 != nil, "C08.R2.missing-object-is-a-miss-every-time")
+	if remote.failGet {
+		remote.failGet = false
+		r2, gerr2 := b.Get(ctxB, "cas", "k1")
+		sym.Assert(gerr2 == nil, "C08.R2.read-through-succeeds-once-the-remote-is-back")
+		if gerr2 == nil {
+			sym.Assert(sym.StrEq(readAllClose(r2), content), "C08.R2.read-through-returns-exactly-the-remote-bytes")
+		}
+	}
 	ex, eerr := b.Exists(ctxB, "cas", "absent")
 	if remote.failExists {
 		sym.Assert(eerr != nil && !ex, "C08.R2.head-error-is-reported-not-a-hit")
@@ -205,4 +218,88 @@ func VerifC08_R_broken_body() {
 	}
 	sym.Assert(!committedTruncated, "C08.R2.truncated-remote-body-is-never-committed-locally")
 	sym.Reach("C08.R.broken-body")
+}
+
+// ---- S3 adapter: the real S3Cache over a model of the S3 client ---------------------------------
+
+type memS3 struct {
+	objects      map[string]string
+	putFailures  int  // the next n PutObject calls fail (transient 5xx)
+	failConsumes bool // a failing PutObject has read (part of) the body before it fails
+	getFails     bool
+}
+
+func (m *memS3) GetObject(ctx context.Context, bucket, key string) (io.ReadCloser, error) {
+	if m.getFails {
+		return nil, errors.New("s3: 500 InternalError")
+	}
+	c, ok := m.objects[bucket+"|"+key]
+	if !ok {
+		return nil, errors.New("s3: NoSuchKey")
+	}
+	return io.NopCloser(strings.NewReader(c)), nil
+}
+
+func (m *memS3) PutObject(ctx context.Context, bucket, key string, body io.Reader) error {
+	if m.putFailures > 0 {
+		m.putFailures--
+		if m.failConsumes {
+			_, _ = io.ReadAll(body)
+		}
+		return errors.New("s3: 503 SlowDown")
+	}
+	b, err := io.ReadAll(body)
+	if err != nil {
+		return err
+	}
+	m.objects[bucket+"|"+key] = string(b)
+	return nil
+}
+
+func (m *memS3) DeleteObject(ctx context.Context, bucket, key string) error {
+	delete(m.objects, bucket+"|"+key)
+	return nil
+}
+
+func (m *memS3) ObjectExists(ctx context.Context, bucket, key string) (bool, error) {
+	_, ok := m.objects[bucket+"|"+key]
+	return ok, nil
+}
+
+// R5: whatever the S3 client does (transient upload failures that may or may not have consumed
+// the body), a Set that reports success has stored exactly the bytes it was given, a Set that
+// reports failure has not stored other bytes under the key, and Get/Exists/Delete agree with it.
+func VerifC08_R_s3_adapter() {
+	ctx := context.Background()
+	config.Global.WorkspaceRoot = "/w"
+	cl := &memS3{objects: map[string]string{}}
+	cl.putFailures = sym.Choice("transient_put_failures", 4)
+	cl.failConsumes = flag("failing_put_consumes_body")
+	s3c, err := NewS3CacheWithClient(ctx, config.S3CacheConfig{Bucket: "b", Prefix: "pre"}, cl)
+	sym.Assert(err == nil, "C08.R5.s3-cache-constructed")
+	if err != nil {
+		return
+	}
+	content := sym.StringAlpha("content", 2, "ab")
+	sym.Assume(content != "")
+	serr := s3c.Set(ctx, "cas", "k1", strings.NewReader(content))
+	stored, present := "", false
+	for _, v := range cl.objects {
+		stored, present = v, true
+	}
+	if serr == nil {
+		sym.Assert(present && sym.StrEq(stored, content), "C08.R5.successful-set-stored-exactly-the-bytes")
+		r, gerr := s3c.Get(ctx, "cas", "k1")
+		sym.Assert(gerr == nil, "C08.R5.get-after-set")
+		if gerr == nil {
+			sym.Assert(sym.StrEq(readAllClose(r), content), "C08.R5.get-returns-the-bytes")
+		}
+		ex, eerr := s3c.Exists(ctx, "cas", "k1")
+		sym.Assert(eerr == nil && ex, "C08.R5.exists-after-set")
+		sym.Assert(s3c.Delete(ctx, "cas", "k1") == nil && len(cl.objects) == 0, "C08.R5.delete-removes-the-object")
+		sym.Reach("C08.R.s3.stored")
+	} else {
+		sym.Assert(!present || sym.StrEq(stored, content), "C08.R5.failed-set-leaves-no-other-bytes-under-the-key")
+		sym.Reach("C08.R.s3.failed")
+	}
 }
